@@ -389,7 +389,10 @@ def run_time(case):
     blk = [F(((5 * k * k + k) % 13) - 6, 2) for k in range(L)]
   fl = [float(v) for v in blk]
   if which == "defining-sum":
-    for w in ws:
+    # besides the common grid: the block's own FFT bins, written the two usual ways
+    bins = [2 * math.pi * k / L for k in range(L)] + [k * (2 * math.pi / L) for k in range(L)] + \
+           [k * 2 * math.pi / L for k in range(L, 2 * L, max(1, L // 7))]
+    for w in ws + bins:
       for norm in (True, False):
         got = dft(list(fl), [w], normalize=norm)[0] if not norm else dft(list(fl), [w])[0]
         e = dft_exact(blk, w).cfloat() / (L if norm else 1)
